@@ -1,6 +1,97 @@
-(* C19 — property theorems (statements only; proofs live in Acme.C19.Proofs). *)
-From Coq Require Import ZArith List.
-From Acme.C19 Require Import Model.
-Theorem clear_empty : forall s, step s Clear = empty.
-Proof. reflexivity. Qed.
-Print Assumptions clear_empty.
+(* C19 — property theorems (statements only; proofs live in Acme.C19.Proofs and ProofsShape, ProofsOrder, ProofsQuery).
+   Vocabulary: Acme.C19.Model (the executable model of internal/interval_bst.go: run, step, size,
+   root, inorder, intersects, can_update), Acme.C19.Spec (spec = multiset semantics of a history,
+   contents, lex_le, overlaps, same, pairwise_disjoint, every_node, balanced_at, height_exact_at,
+   max_exact_at), Acme.C19.ModelChk (run_chk: the same operations, failing where the Go code would
+   dereference nil). All statements quantify over every finite operation history `ops`. *)
+From Coq Require Import ZArith List Bool Sorting.Sorted Sorting.Permutation.
+From Acme.C19 Require Import Model Spec ModelChk Proofs.
+Import ListNotations.
+Open Scope Z_scope.
+
+(* Size() is the cardinality of the multiset *)
+Theorem size_spec : forall ops, size (run ops) = Z.of_nat (length (spec ops)).
+Proof. exact size_spec_proof. Qed.
+Print Assumptions size_spec.
+
+(* IsEmpty() *)
+Theorem is_empty_spec : forall ops, (size (run ops) =? 0) = true <-> spec ops = [].
+Proof. exact is_empty_proof. Qed.
+Print Assumptions is_empty_spec.
+
+(* GetAllIntervals(): the multiset, in (low, high) lexicographic order, hence ascending by low *)
+Theorem contents_spec : forall ops,
+  Permutation (contents (run ops)) (spec ops)
+  /\ StronglySorted lex_le (contents (run ops))
+  /\ Sorted Z.le (map fst (contents (run ops))).
+Proof. exact contents_spec_proof. Qed.
+Print Assumptions contents_spec.
+
+(* AVL balance at every node, w.r.t. real heights *)
+Theorem balanced : forall ops, every_node balanced_at (root (run ops)).
+Proof. exact balanced_proof. Qed.
+Print Assumptions balanced.
+
+(* stored height = real height at every node *)
+Theorem heights_exact : forall ops, every_node height_exact_at (root (run ops)).
+Proof. exact heights_exact_proof. Qed.
+Print Assumptions heights_exact.
+
+(* stored max = greatest high end in the subtree, at every node *)
+Theorem max_exact : forall ops, every_node max_exact_at (root (run ops)).
+Proof. exact max_exact_proof. Qed.
+Print Assumptions max_exact.
+
+(* the hypothesis of the two query theorems may be read on the history or on the tree *)
+Theorem disjoint_spec_iff_contents : forall ops,
+  pairwise_disjoint (spec ops) <-> pairwise_disjoint (contents (run ops)).
+Proof. exact disjoint_spec_contents. Qed.
+Print Assumptions disjoint_spec_iff_contents.
+
+(* Intersects = brute-force scan (no restriction on the query interval) *)
+Theorem intersects_exact : forall ops lo hi,
+  pairwise_disjoint (spec ops) ->
+  intersects (run ops) lo hi = existsb (overlaps (lo, hi)) (contents (run ops)).
+Proof. exact intersects_exact_proof. Qed.
+Print Assumptions intersects_exact.
+
+(* CanUpdateInterval for a stored interval x = no *other* stored interval meets the new bounds *)
+Theorem can_update_exact : forall ops (x : Z * Z) newlo newhi,
+  pairwise_disjoint (spec ops) ->
+  In x (contents (run ops)) ->
+  can_update (run ops) (fst x) (snd x) newlo newhi
+  = negb (existsb (fun y => overlaps (newlo, newhi) y && negb (same x y)) (contents (run ops))).
+Proof. exact can_update_exact_proof. Qed.
+Print Assumptions can_update_exact.
+
+(* the hypotheses of the two query theorems hold in a non-trivial reachable state
+   (7 stored intervals, height 4, after an ignored inverted insert and a delete) *)
+Theorem query_hypotheses_satisfiable :
+  pairwise_disjoint (spec example_ops)
+  /\ In (8, 10) (contents (run example_ops))
+  /\ length (contents (run example_ops)) = 7%nat
+  /\ height (root (run example_ops)) = 4.
+Proof. exact example_disjoint. Qed.
+Print Assumptions query_hypotheses_satisfiable.
+
+(* ... and they are needed: with overlapping contents the pruned searches are not exact *)
+Theorem intersects_without_disjointness_refuted :
+  exists ops lo hi,
+    intersects (run ops) lo hi <> existsb (overlaps (lo, hi)) (contents (run ops)).
+Proof. exact intersects_needs_disjoint. Qed.
+Print Assumptions intersects_without_disjointness_refuted.
+
+Theorem can_update_without_disjointness_refuted :
+  exists ops x newlo newhi,
+    In x (contents (run ops)) /\
+    can_update (run ops) (fst x) (snd x) newlo newhi
+    <> negb (existsb (fun y => overlaps (newlo, newhi) y && negb (same x y)) (contents (run ops))).
+Proof. exact can_update_needs_disjoint. Qed.
+Print Assumptions can_update_without_disjointness_refuted.
+
+(* rot_defined: the branches where Model.v totalises a nil dereference of the Go code
+   (rotateLeft/rotateRight on a missing child, root.left.item / root.right.item in insertNode)
+   are never taken from a reachable state: the partial model succeeds and agrees with `run` *)
+Theorem rot_defined : forall ops, run_chk ops = Some (run ops).
+Proof. exact run_chk_defined. Qed.
+Print Assumptions rot_defined.
